@@ -66,7 +66,7 @@ def random_spec(r: random.Random, idx: int) -> dict:
     lowmut = r.random() < 0.15
     engines = [r.choice(ROOT_ENGINES)] + [r.choice(CHILD_ENGINES) for _ in range(nlevels - 1)]
     levels = [_level(r, e, d, nlevels, lowmut) for d, e in enumerate(engines)]
-    dim = r.choice([2, 2, 3, 4])
+    dim = r.choice([2, 2, 3, 4, 5, 6])
     spec = {"name": f"rand{idx}", "seed": r.randrange(1, 10 ** 6), "dim": dim, "box": r.choice(BOX),
             "fn": r.choice(FNS), "maximize": r.random() < 0.4, "levels": levels,
             "hibernation": r.random() < 0.5, "idlecheck": not lowmut}
